@@ -128,6 +128,10 @@ def tlc(module, cfg, metadir, workers=1, timeout=1800, env=None, extra=None, xmx
         jopts.append("-Xss1g")
     if deque:
         jopts.append("-Dtlc2.tool.queue.IStateQueue=StateDeque")
+    # TLC creates a scratch directory per run under java.io.tmpdir: kept inside the run's own (git-ignored) work directory, not in /tmp
+    jtmp = os.path.join(metadir, "jtmp")
+    os.makedirs(jtmp, exist_ok=True)
+    jopts.append("-Djava.io.tmpdir=" + jtmp)
     cmd = ["java", "-XX:+UseParallelGC", "-Xmx" + xmx] + jopts + ["-cp", TLC_CP, "tlc2.TLC",
            "-workers", str(workers), "-metadir", metadir, "-cleanup", "-noGenerateSpecTE",
            "-config", cfg] + (extra or []) + [module]
